@@ -168,6 +168,13 @@ impl<T: CancelIo> CancelImpl<T> {
     // set the cancel co data
     // can't both set_io and set_co
     pub fn set_co(&self, co: Arc<AtomicOption<CoroutineImpl>>) {
+        // a wait that is entered while cancellation is disabled is not
+        // interrupted by `cancel()`: the cancel is delivered at the next
+        // cancellable point after it has been enabled again
+        if self.is_disabled() {
+            self.co.clear();
+            return;
+        }
         self.co.store(co);
     }
 
